@@ -364,6 +364,8 @@ type PosArg struct {
 	Name  string `json:"name,omitempty"`
 	Desc  string `json:"desc,omitempty"`
 	Req   string `json:"req,omitempty"`
+	// RawTag: tag of the positional field, verbatim
+	RawTag *string `json:"rawtag,omitempty"`
 }
 
 type Positional struct {
@@ -738,7 +740,11 @@ func posStructType(p *Positional) reflect.Type {
 		if a.Req != "" {
 			tagKV(&sb, "required", a.Req)
 		}
-		fs = append(fs, reflect.StructField{Name: a.Field, Type: a.Kind.Type(), Tag: reflect.StructTag(sb.String())})
+		tag := sb.String()
+		if a.RawTag != nil {
+			tag = *a.RawTag
+		}
+		fs = append(fs, reflect.StructField{Name: a.Field, Type: a.Kind.Type(), Tag: reflect.StructTag(tag)})
 	}
 	return reflect.StructOf(fs)
 }
